@@ -747,6 +747,11 @@ def corpus():
 
 def gen(rng, n, tier):
     fx = fixed_cases()
+    # the unsupported constructs and the constants are few and each stands for a table entry: always run them all
+    must = [c for c in fx if c['g'] in ('other', 'const')]
+    yield from must
+    fx = [c for c in fx if c['g'] not in ('other', 'const')]
+    n = max(0, n - len(must))
     if tier == 'thorough':
         take = fx if n >= 2 * len(fx) else rng.sample(fx, n // 2)
     else:
